@@ -96,31 +96,45 @@ inductive Op where
 
 def getF (h : List Frame) (e : Nat) : Frame := h.getD e default
 
+/-- `pool := &run.Pool; index := run.PoolSize - 1; if index >= 0 { pop } else { env = &Env{} }`:
+    the frame, its previous content, the remaining pool, the heap containing the frame -/
+def pick (reuse : Bool) (s : State) : Nat × Frame × List Nat × List Frame :=
+  match reuse, s.pool with
+  | true, p :: rest => (p, getF s.heap p, rest, s.heap)
+  | _, _ => (s.heap.length, {}, s.pool, s.heap ++ [{}])
+
+/-- cap(env.Ints) -/
+def intsCap (arrs : List Arr) (fr : Frame) : Nat :=
+  match fr.ints with
+  | some a => (arrs.getD a default).cells.length
+  | none => 0
+
+/-- `if cap(env.Ints) >= nintbind { env.Ints = env.Ints[0:nintbind] } else { env.Ints = make([]uint64, nintbind) }` -/
+def resizeInts (arrs : List Arr) (fr : Frame) (ni : Nat) : Option Nat × List Arr :=
+  if ni ≤ intsCap arrs fr then (fr.ints, arrs)
+  else (some arrs.length, arrs ++ [{ cells := List.replicate ni none }])
+
+/-- ghost: the array visible through the new incarnation gets the next array serial -/
+def relabel (arrs : List Arr) (ints : Option Nat) (ni lid : Nat) : List Arr :=
+  if 0 < ni then
+    match ints with
+    | some a => arrs.set a { arrs.getD a default with lid := lid }
+    | none => arrs
+  else arrs
+
+/-- `if cap(env.Vals) >= nbind { env.Vals = env.Vals[0:nbind] } else { env.Vals = make([]xr.Value, nbind) }` -/
+def resizeVals (fr : Frame) (nb : Nat) : List Slot :=
+  if nb ≤ fr.vals.length then fr.vals else List.replicate nb none
+
 /-- the common part of newEnv / NewEnv / newEnv4Func.  Returns the new state and the frame. -/
 def alloc (reuse : Bool) (s : State) (outer nb ni : Nat) : State × Nat :=
-  -- pool := &run.Pool; index := run.PoolSize - 1; if index >= 0 { pop } else { env = &Env{} }
-  let (e, fr, pool', heap0) : Nat × Frame × List Nat × List Frame :=
-    match reuse, s.pool with
-    | true, p :: rest => (p, getF s.heap p, rest, s.heap)
-    | _, _ => (s.heap.length, {}, s.pool, s.heap ++ [{}])
-  -- if cap(env.Vals) >= nbind { env.Vals = env.Vals[0:nbind] } else { make }
-  let vals := if nb ≤ fr.vals.length then fr.vals else List.replicate nb none
-  -- if cap(env.Ints) >= nintbind { env.Ints = env.Ints[0:nintbind] } else { make }
-  let cap := match fr.ints with
-    | some a => (s.arrs.getD a default).cells.length
-    | none => 0
-  let (ints, arrs1) : Option Nat × List Arr :=
-    if ni ≤ cap then (fr.ints, s.arrs)
-    else (some s.arrs.length, s.arrs ++ [{ cells := List.replicate ni none }])
-  -- ghost: the array visible through this incarnation gets the next array serial
-  let (arrs2, nalid') : List Arr × Nat :=
-    if 0 < ni then
-      match ints with
-      | some a => (arrs1.set a { arrs1.getD a default with lid := s.nalid }, s.nalid + 1)
-      | none => (arrs1, s.nalid + 1)
-    else (arrs1, s.nalid)
-  let fr' : Frame := { fr with vals := vals, nb := nb, ints := ints, ni := ni, outer := some outer, lid := s.nlid }
-  ({ s with heap := heap0.set e fr', arrs := arrs2, pool := pool', nlid := s.nlid + 1, nalid := nalid' }, e)
+  let pk := pick reuse s
+  let e := pk.1
+  let fr := pk.2.1
+  let ri := resizeInts s.arrs fr ni
+  let fr' : Frame := { fr with vals := resizeVals fr nb, nb := nb, ints := ri.1, ni := ni, outer := some outer, lid := s.nlid }
+  ({ s with heap := pk.2.2.2.set e fr', arrs := relabel ri.2 ri.1 ni s.nalid, pool := pk.2.2.1,
+            nlid := s.nlid + 1, nalid := if 0 < ni then s.nalid + 1 else s.nalid }, e)
 
 /-- Env.freeEnv -/
 def free (reuse : Bool) (s : State) (e : Nat) : State :=
